@@ -197,6 +197,7 @@ theorem sim7b_step (s : St) (e : Ev) (s' : St) (m : M7b) (hR : Sim7b s m) (hs : 
       | probe j c => cases hob; exact ⟨rfl, plain_facts s s' _ m _ hR hst rfl (by intros; simp)⟩
       | nilnext k => cases hob; exact ⟨rfl, plain_facts s s' _ m _ hR hst rfl (by intros; simp)⟩
       | cancelroot => cases hob; exact ⟨rfl, plain_facts s s' _ m _ hR hst rfl (by intros; simp)⟩
+      | boff k b => cases hob; exact ⟨rfl, plain_facts s s' _ m _ hR hst rfl (by intros; simp)⟩
     obtain ⟨hbad, hlen, hnew⟩ := hfacts
     refine ⟨{ a := a', o := o', fl := flagsUpd a' o' (m.ext ob) }, ?_, ha2, ⟨hG, ho2⟩,
       flagInv_next s s' e m a' o' _ hR hst ha2 ⟨hG, ho2⟩ hlen hnew⟩
